@@ -178,6 +178,7 @@ func RedisGetInt(key string) (int64, bool)            { panic("verifrt: redis mo
 func RedisPTTL(key string) int64                      { panic("verifrt: redis model is engine-only") }
 func RedisFail(on bool)                               {}
 func RedisCalls() int                                 { return 0 }
+func RedisScriptRuns() int                            { return 0 }
 func RedisWrites() int                                { return 0 }
 func RedisPersistentWrites() int                      { return 0 }
 func RedisKeys() int                                  { return 0 }
